@@ -176,9 +176,9 @@ def run(run):
         run.require(F.unknown == 0, 'unknown AST nodes in %s' % F.label())
         run.count('units')
         run.count('records', len(F.records))
-        records.payload_layout(run, 'C07.a', F)
-        records.member_alignment(run, 'C07.a', F)
-        ctor_rules(run, F)
+        run.guard('payload layout', records.payload_layout, run, 'C07.a', F)
+        run.guard('member alignment', records.member_alignment, run, 'C07.a', F)
+        run.guard('payload constructors', ctor_rules, run, F)
         facts.drop(F)
     run.floor('C07.a', 36)
     run.floor('C07.b', 20)
@@ -188,9 +188,9 @@ def run(run):
     for c in fcfgs:
         for v in facts.variants(run.tier):
             F = facts.load('w_core', c, v)
-            plan_payload_forwarding(run, F)
+            run.guard('plan payload forwarding', plan_payload_forwarding, run, F)
             from rules import c02
-            c02.drop_condition(run, F)
+            run.guard('drop predicate', c02.drop_condition, run, F)
             run.relabel('C02.f', 'C07.e')
             # a request replaces the *whole* outstanding request object (no payload flag / bytes of an earlier request survive in it), and
             # nothing but the request writers and request processing touches the slot
